@@ -208,6 +208,8 @@ def transpile_case(acc: Acc, module: str) -> None:
 
 
 SPECIAL = [
+	# modules that consist of string literals only (a package __init__ with nothing but its doc string), doc strings everywhere
+	'"""doc"""\n', "'a'\n'b'\n", '"""doc"""\nx = 1\n', 'def f() -> None:\n\t"""doc"""\n\tx = 1\n\t"""not a doc"""\nclass A:\n\t"""doc"""\n\tdef m(self) -> None:\n\t\t"""doc"""\n', '', '\n', 'pass\n', '...\n',
 	'x = ()\n', 'def f() -> None:\n\treturn\n', 'with a:\n\tpass\n', '@deco\ndef f() -> None:\n\t...\n', 'x = a[:]\ny = a[::2]\n',
 	'class A:\n\tdef __init__(self) -> None:\n\t\tself.x: int = 0\n\t@property\n\tdef p(self) -> int:\n\t\treturn self.x\n',
 	'x = [i for i in a]\ny = {k: v for k, v in b if k}\n', 'try:\n\tpass\nexcept A:\n\tpass\n', 'f(a, k=1, *b, **c)\n', 'x = lambda: 1\n',
